@@ -1,17 +1,271 @@
-import SSV.Model.ClientGroups
+import SSV.Proofs.ClientGroupsMain
 /-
-C19 — client groups pick clients as their policy says (first pass; deepened below).
+C19 — Client groups pick clients as their policy says.
+
+Model: SSV/Model/ClientGroups.lean (clientgroups/clientgroups.go, clientgroups/probe.go); numbers, comparison
+operators, initial bests and the failure record come from SSV/Gen/C19.lean (regenerated from the source).
+Vocabulary (SSV/Proofs/ClientGroupsRun.lean): `History n` = list of rounds, a round = the outcome of every
+client's probe (`none` = failed, `some d` = succeeded after `d` ns); `column hist i` = client i's outcomes;
+`specScore` = the figure the statement ranks clients by, computed from the client's WHOLE history:
+successes among the last 64 rounds / mean latency over the 32-round window in integer ns / worst latency among
+the last 32 rounds, a failed probe counting as the timeout.
 -/
 namespace SSV.C19
 open SSV.ClientGroups SSV.Gen.C19
 
-/-- round-robin never indexes outside the group (the code's guard: groups are only built from non-empty client lists) -/
+/-! ## round-robin -/
+
+/-- `rr_cyclic` (sequential part): the first `m ≤ 2^63` selections of a round-robin group of `n` clients are
+    clients `0, 1, …, n-1, 0, 1, …` in configuration order, none skipped. -/
+theorem rr_cyclic (n m : Nat) (hm : m ≤ 2 ^ 63) :
+    rrRun rrInit n m = (List.range m).map (fun k => k % n) := by
+  rw [← ctrBefore_zero, rrRun_from, List.range_eq_range']
+  apply List.map_congr_left
+  intro k hk
+  have : k < m := by simpa using (List.mem_range'_1.mp hk).2
+  exact pickOfTicket_small n k (by omega)
+
+example : (3 : Nat) ≤ 2 ^ 63 := by decide
+
+/-- the counter's wrap, stated: for EVERY `m` the k-th selection is client `(k mod 2^63) mod n`; so after
+    `2^63` selections the cycle restarts at client 0, which continues the cyclic order only if `n` divides `2^63`. -/
+theorem rr_counter_wrap (n m : Nat) :
+    rrRun rrInit n m = (List.range m).map (fun k => k % 2 ^ 63 % n) := by
+  rw [← ctrBefore_zero, rrRun_from, List.range_eq_range']
+  apply List.map_congr_left
+  intro k _
+  exact pickOfTicket_eq n k
+
+/-- the wrap on a concrete group of 3: selections number `2^63 - 1` and `2^63` are clients 1 and 0 (not 1 and 2). -/
+theorem rr_wrap_witness : (2 ^ 63 - 1) % 2 ^ 63 % 3 = 1 ∧ 2 ^ 63 % 2 ^ 63 % 3 = 0 ∧ 2 ^ 63 % 3 = 2 := by decide
+
+/-- `rr_cyclic` (concurrent part). Threads perform `index.Add(1)` atomically and finish their selection (mask,
+    modulo, index) later, in any order. For ANY sequence of such events: when no selection is in flight, the
+    clients handed out so far (in completion order) are a permutation of `0 mod n, 1 mod n, …, (m-1) mod n`,
+    `m` = number of selections started (`≤ 2^63`). -/
+theorem rr_concurrent_multiset (n : Nat) (evs : List RREvent) (hm : addCount evs ≤ 2 ^ 63)
+    (hdone : (rrExec n rrInitState evs).pending = []) :
+    (rrExec n rrInitState evs).done.Perm ((List.range (addCount evs)).map (fun k => k % n)) := by
+  have h := (rrInv_exec n evs 0 rrInitState (rrInv_init n)).perm
+  rw [hdone, Nat.zero_add] at h
+  simp only [List.map_nil, List.nil_append] at h
+  have e : (List.range (addCount evs)).map (pickOfTicket n) = (List.range (addCount evs)).map (fun k => k % n) := by
+    apply List.map_congr_left
+    intro k hk
+    exact pickOfTicket_small n k (by have := List.mem_range.mp hk; omega)
+  rw [e] at h
+  exact h
+
+example : addCount [.add 1, .add 2, .fin 2, .fin 1] ≤ 2 ^ 63 ∧
+    (rrExec 2 rrInitState [.add 1, .add 2, .fin 2, .fin 1]).pending = [] ∧
+    (rrExec 2 rrInitState [.add 1, .add 2, .fin 2, .fin 1]).done = [1, 0] := by decide
+
+/-- the same at every instant of every interleaving: selections in flight + selections returned = the tickets
+    `0 … m-1` handed out by the atomic counter (nothing skipped, nothing handed out twice). -/
+theorem rr_concurrent_invariant (n : Nat) (evs : List RREvent) (hm : addCount evs ≤ 2 ^ 63) :
+    let s := rrExec n rrInitState evs
+    (s.pending.map (fun q => rrPick q.2 n) ++ s.done).Perm ((List.range (addCount evs)).map (fun k => k % n)) := by
+  have h := (rrInv_exec n evs 0 rrInitState (rrInv_init n)).perm
+  rw [Nat.zero_add] at h
+  have e : (List.range (addCount evs)).map (pickOfTicket n) = (List.range (addCount evs)).map (fun k => k % n) := by
+    apply List.map_congr_left
+    intro k hk
+    exact pickOfTicket_small n k (by have := List.mem_range.mp hk; omega)
+  rw [e] at h
+  exact h
+
+example : addCount [.add 7, .fin 7, .add 8] ≤ 2 ^ 63 := by decide
+
+/-- round-robin never indexes outside the group (groups are only built from non-empty client lists) -/
 theorem rr_member (v n : Nat) (hn : 0 < n) : rrPick v n < n := by
   unfold rrPick
   exact Nat.mod_lt _ hn
 
 example : ∃ v n, 0 < n ∧ rrPick v n < n := ⟨5, 3, by decide, by decide⟩
 
+/-! ## random -/
+
+/-- `random_member`: whatever `rand.IntN(len)` returns within its contract, the client handed out is a member;
+    outside the contract the expression panics (`none`), it never yields a non-member. -/
+theorem random_member (n draw i : Nat) (h : randomPick n draw = some i) : i < n := by
+  unfold randomPick at h
+  by_cases hd : draw < n
+  · simp [hd] at h; omega
+  · simp [hd] at h
+
+example : randomPick 3 2 = some 2 := by decide
+
+/-- within the contract of `rand.IntN` a member is always handed out -/
+theorem random_total (n draw : Nat) (hd : draw < n) : randomPick n draw = some draw := by
+  simp [randomPick, hd]
+
+example : (2 : Nat) < 3 := by decide
+
+/-! ## availability / latency / min-max latency -/
+
+/-- what the source retains (regenerated): 64 rounds of success bits, 32 latencies -/
+theorem retention_64_32 : retention .avail = 64 ∧ retention .lat = 32 ∧ retention .minmax = 32 := by decide
+
+/-- `best_is_argmax_first`, availability: after every round of every history (any length, any group size) the
+    selection is the FIRST client in configuration order with the most successes in the retained history. -/
+theorem best_is_argmax_first_availability {n : Nat} (hn : 0 < n) (timeout : Nat) (hist : History n) (hne : hist ≠ []) :
+    ∃ h : (run .avail timeout (init .avail n) (hist.map List.ofFn)).sel < n,
+      (∀ j : Fin n, specScore .avail timeout (column hist j) ≤
+          specScore .avail timeout (column hist ⟨(run .avail timeout (init .avail n) (hist.map List.ofFn)).sel, h⟩)) ∧
+      (∀ j : Fin n, j.val < (run .avail timeout (init .avail n) (hist.map List.ofFn)).sel →
+          specScore .avail timeout (column hist j) <
+          specScore .avail timeout (column hist ⟨(run .avail timeout (init .avail n) (hist.map List.ofFn)).sel, h⟩)) := by
+  have hb : StrictOrd (cmpTest (cmpOf .avail)) := by simp only [cmpOf, avail_cmp]; exact strictOrd_gt
+  have hfb := run_firstBest .avail timeout hn hist hne hb (by
+    intro i; simp [cmpOf, avail_cmp, initBestOf, avail_init, valOf, cmpTest])
+  obtain ⟨h, h1, h2⟩ := firstBestL_ofFn _ _ _ hfb
+  refine ⟨h, ?_, ?_⟩
+  · intro j
+    have := h1 j
+    simp only [cmpOf, avail_cmp, cmpTest, decide_eq_false_iff_not] at this
+    omega
+  · intro j hj
+    have := h2 j hj
+    simp only [cmpOf, avail_cmp, cmpTest, decide_eq_true_eq] at this
+    omega
+
+example : ∃ hist : History 2, hist ≠ [] := ⟨[fun _ => some 3], by simp⟩
+
+/-- `best_is_argmax_first`, latency: the selection is the FIRST client with the lowest mean latency over the
+    retained history (failures counted as the timeout), provided successful probes report at most the timeout
+    (their own deadline). -/
+theorem best_is_argmax_first_latency {n : Nat} (hn : 0 < n) (timeout : Nat) (hist : History n) (hne : hist ≠ [])
+    (hlat : ∀ f ∈ hist, ∀ (i : Fin n) (d : Nat), f i = some d → d ≤ timeout) :
+    ∃ h : (run .lat timeout (init .lat n) (hist.map List.ofFn)).sel < n,
+      (∀ j : Fin n, specScore .lat timeout (column hist ⟨(run .lat timeout (init .lat n) (hist.map List.ofFn)).sel, h⟩) ≤
+          specScore .lat timeout (column hist j)) ∧
+      (∀ j : Fin n, j.val < (run .lat timeout (init .lat n) (hist.map List.ofFn)).sel →
+          specScore .lat timeout (column hist ⟨(run .lat timeout (init .lat n) (hist.map List.ofFn)).sel, h⟩) <
+          specScore .lat timeout (column hist j)) := by
+  have hb : StrictOrd (cmpTest (cmpOf .lat)) := by simp only [cmpOf, lat_cmp]; exact strictOrd_lt
+  have hcol : ∀ i : Fin n, ∀ o ∈ column hist i, ∀ d, o = some d → d ≤ timeout := by
+    intro i o ho d hd
+    obtain ⟨f, hf, rfl⟩ := List.mem_map.mp ho
+    exact hlat f hf i d hd
+  have hfb := run_firstBest .lat timeout hn hist hne hb (by
+    intro i
+    have := specScore_lat_le timeout (column hist i) (hcol i)
+    simp only [cmpOf, lat_cmp, initBestOf, lat_init, valOf, cmpTest, decide_eq_false_iff_not]
+    omega)
+  obtain ⟨h, h1, h2⟩ := firstBestL_ofFn _ _ _ hfb
+  refine ⟨h, ?_, ?_⟩
+  · intro j
+    have := h1 j
+    simp only [cmpOf, lat_cmp, cmpTest, decide_eq_false_iff_not] at this
+    omega
+  · intro j hj
+    have := h2 j hj
+    simp only [cmpOf, lat_cmp, cmpTest, decide_eq_true_eq] at this
+    omega
+
+example : ∃ hist : History 2, hist ≠ [] ∧ ∀ f ∈ hist, ∀ (i : Fin 2) (d : Nat), f i = some d → d ≤ 10 :=
+  ⟨[fun _ => some 3, fun _ => none], by simp, by
+    intro f hf i d h
+    simp at hf
+    rcases hf with rfl | rfl
+    · simp at h; omega
+    · simp at h⟩
+
+/-- `best_is_argmax_first`, min-max latency: the selection is the FIRST client with the lowest worst latency over
+    the retained history (failures counted as the timeout), under the same proviso. -/
+theorem best_is_argmax_first_minmax {n : Nat} (hn : 0 < n) (timeout : Nat) (hist : History n) (hne : hist ≠ [])
+    (hlat : ∀ f ∈ hist, ∀ (i : Fin n) (d : Nat), f i = some d → d ≤ timeout) :
+    ∃ h : (run .minmax timeout (init .minmax n) (hist.map List.ofFn)).sel < n,
+      (∀ j : Fin n, specScore .minmax timeout (column hist ⟨(run .minmax timeout (init .minmax n) (hist.map List.ofFn)).sel, h⟩) ≤
+          specScore .minmax timeout (column hist j)) ∧
+      (∀ j : Fin n, j.val < (run .minmax timeout (init .minmax n) (hist.map List.ofFn)).sel →
+          specScore .minmax timeout (column hist ⟨(run .minmax timeout (init .minmax n) (hist.map List.ofFn)).sel, h⟩) <
+          specScore .minmax timeout (column hist j)) := by
+  have hb : StrictOrd (cmpTest (cmpOf .minmax)) := by simp only [cmpOf, minmax_cmp]; exact strictOrd_lt
+  have hcol : ∀ i : Fin n, ∀ o ∈ column hist i, ∀ d, o = some d → d ≤ timeout := by
+    intro i o ho d hd
+    obtain ⟨f, hf, rfl⟩ := List.mem_map.mp ho
+    exact hlat f hf i d hd
+  have hfb := run_firstBest .minmax timeout hn hist hne hb (by
+    intro i
+    have := specScore_minmax_le timeout (column hist i) (hcol i)
+    simp only [cmpOf, minmax_cmp, initBestOf, minmax_init, valOf, cmpTest, decide_eq_false_iff_not]
+    omega)
+  obtain ⟨h, h1, h2⟩ := firstBestL_ofFn _ _ _ hfb
+  refine ⟨h, ?_, ?_⟩
+  · intro j
+    have := h1 j
+    simp only [cmpOf, minmax_cmp, cmpTest, decide_eq_false_iff_not] at this
+    omega
+  · intro j hj
+    have := h2 j hj
+    simp only [cmpOf, minmax_cmp, cmpTest, decide_eq_true_eq] at this
+    omega
+
+example : ∃ hist : History 1, hist ≠ [] ∧ ∀ f ∈ hist, ∀ (i : Fin 1) (d : Nat), f i = some d → d ≤ 5 :=
+  ⟨[fun _ => none], by simp, by intro f hf i d h; simp at hf; subst hf; simp at h⟩
+
+/-- "after each round": the selection published after round `k` of a history is the one the three theorems
+    above speak about for the prefix of `k+1` rounds. -/
+theorem after_each_round (p : Policy) (timeout : Nat) (st : State) (hist : List (List Outcome)) (k : Nat)
+    (hk : k < hist.length) :
+    (selections p timeout st hist)[k]? = some (run p timeout st (hist.take (k + 1))).sel :=
+  selections_prefix p timeout hist st k hk
+
+example : (0 : Nat) < [[some 1, (none : Outcome)]].length := by decide
+
+/-- `unchanged_during_round`: while the jobs of a round finish — any clients, any order, any outcomes — the
+    published selection (and the round counter) stay what they were before the round. -/
+theorem unchanged_during_round (p : Policy) (timeout : Nat) (st : State) (jobs : List (Nat × Outcome)) :
+    (runJobs p timeout st jobs).sel = st.sel ∧ (runJobs p timeout st jobs).count = st.count :=
+  runJobs_keeps p timeout jobs st
+
+example : (runJobs .lat 9 (init .lat 2) [(1, some 4), (0, none)]).sel = 0 := by decide
+
+/-- … and the order in which the jobs of a round finish does not matter: once every client's job is done
+    (`wg.Wait()` returns) the scan yields exactly the big-step round the theorems above are about. -/
+theorem round_any_job_order (p : Policy) (timeout : Nat) {n : Nat} (f : Fin n → Outcome) (ord : List (Fin n))
+    (hall : ∀ i : Fin n, i ∈ ord) (st : State) (hlen : st.rings.length = n) :
+    finish p timeout (runJobs p timeout st (ord.map (fun i => (i.val, f i)))) = round p timeout st (List.ofFn f) :=
+  jobs_then_finish p timeout f ord hall st hlen
+
+example : ∃ ord : List (Fin 2), ∀ i : Fin 2, i ∈ ord := ⟨[1, 0], by decide⟩
+
+/-- `always_member`: whatever the history, the improvement tests and the latencies, a probing group hands out one
+    of its own clients (before the first round: the first configured client). -/
+theorem always_member (p : Policy) (timeout : Nat) {n : Nat} (hn : 0 < n) (hist : History n) :
+    (run p timeout (init p n) (hist.map List.ofFn)).sel < n :=
+  run_sel_lt p timeout hn hist
+
+example : (0 : Nat) < 1 := by decide
+
+/-! ## side conditions on the regenerated constants -/
+
+/-- with the default timeout the `int64` sum of one latency ring cannot overflow -/
+theorem default_sum_no_overflow : latencyProbeResultSize * defaultProbeTimeout < 2 ^ 63 := by decide
+
+/-- the defaults are the documented ones (5 s, 30 s, 32) and a default round fits in the default interval -/
+theorem defaults_as_documented :
+    defaultProbeTimeout = 5 * 10 ^ 9 ∧ defaultProbeInterval = 30 * 10 ^ 9 ∧ defaultProbeConcurrency = 32 ∧
+    defaultProbeTimeout < defaultProbeInterval := by decide
+
 end SSV.C19
 
+#print axioms SSV.C19.rr_cyclic
+#print axioms SSV.C19.rr_counter_wrap
+#print axioms SSV.C19.rr_wrap_witness
+#print axioms SSV.C19.rr_concurrent_multiset
+#print axioms SSV.C19.rr_concurrent_invariant
 #print axioms SSV.C19.rr_member
+#print axioms SSV.C19.random_member
+#print axioms SSV.C19.random_total
+#print axioms SSV.C19.retention_64_32
+#print axioms SSV.C19.best_is_argmax_first_availability
+#print axioms SSV.C19.best_is_argmax_first_latency
+#print axioms SSV.C19.best_is_argmax_first_minmax
+#print axioms SSV.C19.after_each_round
+#print axioms SSV.C19.unchanged_during_round
+#print axioms SSV.C19.round_any_job_order
+#print axioms SSV.C19.always_member
+#print axioms SSV.C19.default_sum_no_overflow
+#print axioms SSV.C19.defaults_as_documented
